@@ -28,6 +28,15 @@ class World:
     def tr(self, pid, entry):
         entry['inc'] = self.incarnation.get(pid, 0)
         self.trace.setdefault(pid, []).append(entry)
+        from . import steploop
+
+        steploop.BUDGET['traced'] = steploop.BUDGET.get('traced', 0) + 1
+        if steploop.BUDGET.get('armed') and steploop.BUDGET['traced'] > steploop.CASE_LIMIT:
+            # user code is being run over and over inside one event-loop callback (a stepping loop whose steps neither
+            # suspend nor terminate the process): break out of it - on every further entry, until the case is over -
+            # the runner turns this into a violation
+            steploop.BUDGET['tripped'] = f"more than {steploop.CASE_LIMIT} trace entries (steps, hooks) within one case: user code runs without end"
+            raise steploop.Livelock(steploop.BUDGET['tripped'])
 
     def steps(self, pid):
         """Step-level view of the trace: list of (step name, args, kwargs)."""
